@@ -279,14 +279,12 @@ func fnScan(ctx *cmdContext, args map[string]any) (output respValue, err error) 
 func fnTouch(ctx *cmdContext, args map[string]any) (output respValue, err error) {
 	keyNames := args["key"].([]any)
 
-	count := 0
+	keyStrs := make([]string, 0, len(keyNames))
 	for _, k := range keyNames {
-		if ctx.dsc.touch(k.(string)) {
-			count++
-		}
+		keyStrs = append(keyStrs, k.(string))
 	}
 
-	output.data = respInt(count)
+	output.data = respInt(ctx.dsc.touch(keyStrs))
 	return
 }
 
